@@ -23,6 +23,9 @@ TOL = mp.mpf(10) ** -20        # SEM vs textbook / SEM vs SEM
 NTOL_REL, NTOL_ABS = 1e-8, 1e-11   # SEM vs native floating point
 
 
+VARIANTS = ('same-name', 'reused', 'reordered', 'unsorted-names')
+
+
 class Unsupported(Exception):
     pass
 
@@ -442,8 +445,18 @@ def check_shape_c05(s):
                 for tag, tp, tl, mu in ((fam, 'P', 'logP', mp.mpf(1)), (fam + '_mu', 'P_mu', 'logP_mu', E['MU'])):
                     P = {i: c.val(tp, i) for i in ids}
                     LP = {i: c.val(tl, i) for i in ids}
-                    distribution(R, tag, s, pt, ids, a, P, tb(mu), LP)
+                    TB = tb(mu)
+                    distribution(R, tag, s, pt, ids, a, P, TB, LP)
                     shift(R, tag, s, c, pt, ids, tp, P)
+                    # same structure reached through other nest names / re-used nest objects: textbook keyed by position
+                    for var in VARIANTS:
+                        if f'{tp}#{var}' in c.trees:
+                            bad = [i for i in ids if not close(c.val(f'{tp}#{var}', i), TB[i])]
+                            if tp == 'P' and f'logP#{var}' in c.trees:
+                                bad += [i for i in ids if not close(c.val(f'logP#{var}', i), log(TB[i]))]
+                            R.check(f'C05:bounded:tv:{tag}:independent-of-nest-names-and-object-reuse', not bad,
+                                    **where(s, pt, variant=var, alternative=bad[:1], got=[c.val(f'{tp}#{var}', i) for i in bad[:1]],
+                                            textbook=[TB[i] for i in bad[:1]]))
         except Unsupported as e:
             R.fail('C05:bounded:sem:every-expression-class-has-semantics', **where(s, pt, error=str(e)))
     return R.d
@@ -572,6 +585,20 @@ def check_shape_c06(s):
                 chs = ids if c.dep[name] else [None]
                 bad = [ch for ch in chs if (ch is None or a[ch]) and not close(c.val(name, ch), c.val(base, ch))]
                 R.check(ob, base in T and not bad, **where(s, pt, tree=name, alternative=bad[:1]))
+            for var in VARIANTS:
+                pairs = [(f'{x}#{var}', x, True) for x in ('P', 'logP', 'P_mu')]
+                pairs += [(f'G#{var}', 'G', False)]
+                pairs += [(f'{x}#{var}:{i}', f'{x}:{i}', False) for x in ('lnG', 'lnG_mu') for i in ids if a[i]]
+                for vt, bt, dep in pairs:
+                    if vt in T and bt in T:
+                        chs = [i for i in ids if a[i]] if dep else [None]
+                        bad = [ch for ch in chs if not close(c.val(vt, ch), c.val(bt, ch))]
+                        fn = {'P': 'nested' if fam == 'nested' else 'cnl', 'logP': 'lognested' if fam == 'nested' else 'logcnl',
+                              'P_mu': 'nested_mev_mu' if fam == 'nested' else 'cnlmu', 'G': 'get_mev_generating_for_nested',
+                              'lnG': 'get_mev_for_nested', 'lnG_mu': 'get_mev_for_nested_mu'}[bt.split(':')[0]]
+                        R.check(f'C06:bounded:tv:{fn}:independent-of-nest-names-and-object-reuse', not bad,
+                                **where(s, pt, variant=var, tree=vt, alternative=bad[:1], got=[c.val(vt, ch) for ch in bad[:1]],
+                                        position_keyed=[c.val(bt, ch) for ch in bad[:1]]))
             if tag == 'mu=1':
                 pre = f'C06:bounded:tv:{fam}_mu:scale-one-equals-unscaled'
                 for x, y in (('P_mu', 'P'), ('logP_mu', 'logP')):
